@@ -19,6 +19,7 @@ mod c08;
 mod c10;
 mod c12;
 mod c18;
+mod c19;
 
 fn main() {
     let args: Vec<String> = std::env::args().collect();
@@ -45,6 +46,7 @@ fn main() {
         "C08" => { c08::cases(&mut ctx); c08::preds(&mut ctx); }
         "C10" => { c10::cases(&mut ctx); c10::preds(&mut ctx); }
         "C18" => { c18::cases(&mut ctx); c18::preds(&mut ctx); }
+        "C19" => { c19::cases(&mut ctx); c19::preds(&mut ctx); }
         "C12" => { c12::cases(&mut ctx); c12::preds(&mut ctx); }
         "C03" => { c03::cases(&mut ctx); c03::preds(&mut ctx); }
         _ => { eprintln!("unknown property {}", prop); std::process::exit(2); }
